@@ -7,14 +7,12 @@ import (
 
 // ---- shared harness helpers (package compose)
 
-var vKeyIDs = map[string]int{START: 1, END: 2, "in": 3}
-
+// vKeyID: a stable id of a key string (pure function: harness helpers must not share mutable state between runs)
 func vKeyID(k string) int {
-	if id, ok := vKeyIDs[k]; ok {
-		return id
+	id := 7
+	for i := 0; i < len(k); i++ {
+		id = id*31 + int(k[i])
 	}
-	id := len(vKeyIDs) + 10
-	vKeyIDs[k] = id
 	return id
 }
 
